@@ -610,9 +610,9 @@ Qed.
 
 (* ------------------------------------------------------------------ the property's perturbations as alignments *)
 Lemma lleft_keep l : lleft (map BSig l) = l.
-Proof. induction l as [|t l IH]; [reflexivity|]. cbn. rewrite IH. reflexivity. Qed.
+Proof. unfold lleft. induction l as [|t l IH]; [reflexivity|]. cbn. rewrite IH. reflexivity. Qed.
 Lemma lright_keep l : lright (map BSig l) = l.
-Proof. induction l as [|t l IH]; [reflexivity|]. cbn. rewrite IH. reflexivity. Qed.
+Proof. unfold lright. induction l as [|t l IH]; [reflexivity|]. cbn. rewrite IH. reflexivity. Qed.
 
 (** one site: a run of free gap tokens (whitespace, newlines, comments the graph cannot see) is replaced by
     another one whose last token has the same class - "replace a whitespace run by other whitespace or
